@@ -3,7 +3,7 @@
 From Coq Require Import List ZArith NArith Bool Lia.
 From RecordUpdate Require Import RecordSet.
 From PC.Base Require Import Assoc.
-From PC.Sup Require Import Model Monitors Tactics Sim ObsFacts Effects RelCore LemC02 RelC02defs RelC02t RelC02t2 RelC02t3 RelC02b RelC02c RelC02d RelC02d2.
+From PC.Sup Require Import Model Monitors Tactics Sim ObsFacts Effects RelCore LemC02 RelC02defs RelC02t RelC02t2 RelC02t3 RelC02m RelC02b RelC02c RelC02d RelC02d2.
 Import ListNotations RecordSetNotations.
 
 Section F.
@@ -26,18 +26,25 @@ Proof.
       destruct (Hoi i) as (xo & Exo); [congruence|]. eapply endst_ProcEnd; eauto.
     - (* ENoRestart *) cbn in H. unfold step_api in H.
       destruct (Hoi i) as (xo & Exo); [|eapply sreq_NoRestart; eauto].
-      apply (rt_apc _ _ HRt th). break_step H; split_andb; subst; eauto.
+      refine (proj1 (rt_apc _ _ HRt th i _)). break_step H; split_andb; subst; eauto.
     - (* EStopPending *) cbn in H. unfold step_stop in H. destruct (get i (insts s)) as [x|] eqn:Ex; [|discriminate].
       destruct (Hoi i) as (xo & Exo); [congruence|]. eapply sreq_StopPending; eauto.
     - (* EShutdownOrder *) intros i Hm. pose proof Hm as Hi. cbn in H. unfold step_shutdown in H. break_step H.
       apply memN_In in Hi. apply (same_members_in _ _ _ E0) in Hi. apply in_map_iff in Hi. destruct Hi as (p & Ep & Hp).
-      destruct (Hoi i) as (xo & Exo); [rewrite <- Ep; apply (rt_run _ _ HRt _ Hp)|].
-      eapply sreq_ShutdownOrder; eauto. }
+      destruct (Hoi i) as (xo & Exo); [rewrite <- Ep; apply (proj1 (rt_run _ _ HRt _ Hp))|].
+      eapply sreq_ShutdownOrder; eauto.
+    - (* EProbe *) destruct fatal; [|exact I]. cbn in H. unfold step_env in H.
+      destruct (get i (insts s)) as [x|] eqn:Ex; [|discriminate].
+      destruct (rc_inst _ _ _ HRc _ _ Ex) as (xo & Exo & _ & _ & Hl).
+      apply (lo_le _ _ _ Hle). unfold lo. rewrite (oi_get_some _ _ _ Exo), Hl.
+      destruct (launches x); [|lia]. break_step H; discriminate. }
   pose proof (has_step _ _ _ _ H) as Hh.
   pose proof (Rt_obs_le _ _ _ HRt Hle) as HRt'.
   destruct (step_core_kind _ _ _ _ H) as [? ?|i x ? ? ? ? ? ?|H0|H0|H0|i s0 ? H0|i s0 b ? H0|H0|i ? H0|H0|H0]; subst.
   - exact HRt'.
-  - destruct HRt' as [G1 Ga Gb G2 G3 G4 G5 G6]. constructor; auto.
+  - destruct HRt' as [G1 Ga Gb G2 G3 G4 Ge G5 G6].
+    constructor; [intros p Hp; apply Hh, G1, Hp|intros t0 n i0 Hq; apply Hh; eapply Ga; exact Hq
+                 |intros t0 i0 Hq; apply Hh; eapply Gb; exact Hq|exact G2|exact G3|exact G4|exact Ge|exact G5|exact G6].
   - exact (Rt_step_reg _ _ _ _ _ HRt' Hh H0).
   - exact (Rt_step_api _ _ _ _ _ HRt' Hev Hh H0).
   - exact (Rt_step_stop _ _ _ _ _ HRt' Hev Hh H0).
@@ -45,7 +52,7 @@ Proof.
   - exact (Rt_step_procend _ _ _ _ _ _ _ HRt' Hev Hh H0).
   - exact (Rt_step_shutdown _ _ _ _ _ HRt' Hev Hh H0).
   - exact (Rt_step_ordered _ _ _ _ _ HRt' Hh H0).
-  - exact (Rt_step_env _ _ _ _ _ HRt' Hh H0).
+  - exact (Rt_step_env _ _ _ _ _ HRt' Hev Hh H0).
   - exact (Rt_step_own _ _ _ _ _ HRt' Hh H0).
 Qed.
 
@@ -183,7 +190,7 @@ Proof.
     destruct (spc (get_thread s th)) eqn:Es; try discriminate.
     - destruct (dpc (get_thread s th)) eqn:Ed; try discriminate. destruct rest; try discriminate. split_andb. subst.
       eapply (rt_loop _ _ HRt); [exact Ed|]. rewrite memN_cons, N.eqb_refl. reflexivity.
-    - split_andb. subst. eapply (rt_ready _ _ HRt); eauto. }
+    - split_andb. subst. exact (rt_ready _ _ HRt _ _ _ Es). }
   assert (Hs' : exists t', s' = set_thread th t' s) by (break_step H; subst; eauto).
   destruct Hs' as (t' & ->). clear H.
   eapply P2all_frame; [exact HP|apply sback_eq; reflexivity| |exact Hwk].
@@ -211,7 +218,7 @@ Proof.
   destruct (Hshape j yo' Hyo') as (yo & Eyo & Ok).
   destruct (N.eqb_spec i j) as [<-|Hne].
   - rewrite Ex in Hy'. cbn in Hy'. injection Hy' as <-.
-    destruct (HP _ _ _ Ex Eyo) as [Pcommit Pstop Pexited Palive Pcode Pdecided Prelaunch Pgaveup Prestarts Ppre Pfstopped Prunctx Pendst Pgone Pnostop Pstatus].
+    destruct (HP _ _ _ Ex Eyo) as [Pcommit Pstop Pexited Palive Pcode Pdecided Prelaunch Pgaveup Prestarts Ppre Pfstopped Prunctx Pendst Pgone Pnostop Pstatus Ps1 Pendst2].
     destruct Ok as (Oa & Ob & Oc & Od & Oe & Of). cbn in Oa, Ob, Oc, Od, Oe, Of.
     pose proof (Palive Ha) as Epc. rewrite Epc in *.
     constructor; cbn; rewrite ?Epc, ?Oa, ?Ob, ?Oc, ?Od, ?Oe, ?Of; unfold Pok, GaveUp in *; cbn; autorewrite with sup; auto.
@@ -219,6 +226,7 @@ Proof.
     all: try (intros c0 Hc; repeat destruct Hc as [Hc|Hc]; try discriminate; destruct Hc as [? Hc]; discriminate).
     + intros Hw Hs _. apply Pnostop; auto. apply Hwk, Hw.
     + intros Hw _. apply Pstatus; auto. apply Hwk, Hw.
+    + intros Hw He. apply Pendst2; [apply Hwk, Hw|exact He].
   - eapply P2_frame; [apply (HP _ _ _ Hy' Eyo)|apply ikeep_refl|exact Ok| |exact Hwk].
     apply vrel_vkeep. intros n. autorewrite with sup. split; auto.
 Qed.
@@ -238,16 +246,17 @@ Proof.
     + intros c0 [Hc|[Hc|Hc]]; discriminate.
     + intros c0 [Hc|[b Hc]]; discriminate.
     + split; [lia|intros; lia].
+    + intros s2 c0 [Hc|[b Hc]]; discriminate.
   - destruct (get j (oi o)) as [yo|] eqn:Eyo; [|discriminate]. cbn in Hyo'. injection Hyo' as <-.
     eapply P2_frame; [apply (HP _ _ _ Hy' Eyo)|apply ikeep_refl| |apply vrel_vkeep; intros n0; split; auto|exact Hwk].
     match goal with |- okeep _ (if ?c then _ else _) => destruct c end; unfold okeep; cbn; repeat split; reflexivity.
 Qed.
 
 (* ---- every step ------------------------------------------------------------------------------------------ *)
-Lemma P2all_step_core s o th e s' : Rc cs s o -> Rt s o -> Rd o -> P2all s o -> step_core s th e = Some s' ->
+Lemma P2all_step_core s o th e s' : Rc cs s o -> Rt s o -> Ro o -> Rz s o -> Rs s o -> P2all s o -> step_core s th e = Some s' ->
   P2all s' (obs_step cs o (th, e)).
 Proof.
-  intros HRc HRt HRd HP H. pose proof (wkeep_step cs o (th, e)) as Hwk.
+  intros HRc HRt HRo HRz HRs HP H. pose proof (wkeep_step cs o (th, e)) as Hwk.
   assert (Hfr : oirr e = true -> sback s s' -> P2all s' (obs_step cs o (th, e))).
   { intros Hi Hs. eapply P2all_frame; [exact HP|exact Hs|apply obs_step_keep, Hi|exact Hwk]. }
   destruct (step_core_kind _ _ _ _ H) as [? ?|i x ? ? ? ? ? ?|H0|H0|H0|i s0 ? H0|i s0 b ? H0|H0|i ? H0|H0|H0]; subst.
